@@ -257,9 +257,37 @@ class LinearPolynomial(BaseDeferred):
             res = res[1:]
         return "(0)" if res == "0" else res
 
+    def normalized(self):
+        # Express the polynomial through what is known about its variables by
+        # now. A polynomial built before the link base was set still names the
+        # base promise itself, while addresses built afterwards name the value it
+        # was settled to; both have to meet in the same terms to cancel.
+        coeffs = []
+        constant_term = self.constant_term
+        changed = False
+        for key, value in self.coeffs.items():
+            estimate = key.get_current_best_estimate()
+            if estimate is key:
+                coeffs.append((key, value))
+                continue
+            changed = True
+            if isinstance(estimate, LinearPolynomial):
+                coeffs += [(key1, value1 * value) for key1, value1 in estimate.coeffs.items()]
+                constant_term += estimate.constant_term * value
+            elif isinstance(estimate, BaseDeferred):
+                coeffs.append((estimate, value))
+            else:
+                constant_term += estimate * value
+        if not changed:
+            return self
+        return LinearPolynomial[int](coeffs, constant_term)
+
     def __add__(self, rhs):
+        self = self.normalized()
         if isinstance(rhs, BaseDeferred):
             rhs = rhs.get_current_best_estimate()
+        if isinstance(rhs, LinearPolynomial):
+            rhs = rhs.normalized()
         if not isinstance(rhs, BaseDeferred):
             return LinearPolynomial[int](self.coeffs, self.constant_term + rhs)
         if not isinstance(rhs, LinearPolynomial):
